@@ -6,10 +6,12 @@ VARIABLES tr, l
 ASSUME TLCSet(1, {}) /\ TLCSet(2, [i \in DOMAIN Traces |-> 0])
 CaseOf(f) == IF f.kind = "admit" THEN [f EXCEPT !.wl = ToSet(@), !.lans = ToSet(@)] ELSE f
 Step(e) == LET c == CaseOf(e.frame) x == Expect(c) IN
-  CASE c.kind = "admit"  -> /\ (e.served => x.mayServe)                 \* served only if configured
-                            /\ (e.served <=> e.handler)                 \* refused => the handler did not run
-                            /\ (~e.served => e.status = 403)
-                            /\ e.allowfn = e.served                      \* the predicate and the handler agree
+  CASE c.kind = "admit"  -> /\ ("cfgerr" \in DOMAIN e => c.junk = "wl")   \* only an ill-formed whitelist entry refuses the configuration
+                            /\ IF "cfgerr" \in DOMAIN e THEN TRUE         \* (nothing is served then)
+                               ELSE /\ (e.served => x.mayServe)                 \* served only if configured
+                                    /\ (e.served <=> e.handler)                 \* refused => the handler did not run
+                                    /\ (~e.served => e.status = 403)
+                                    /\ e.allowfn = e.served                      \* the predicate and the handler agree
     [] c.kind = "render" -> /\ e.ok = x.ok
                             /\ (x.ok => e.text = x.text /\ e.back = TRUE)   \* exact canonical text, parses back
     [] c.kind = "target" -> e.targetok = TRUE /\ e.addrok = TRUE /\ e.fieldsok = TRUE
